@@ -710,6 +710,7 @@ CORE_CFGS = {
     "fdev": (["A", "B"], {"VP_CAP": "2", "VP_CTXPERSIST": "1", "VP_SETUP": "loop2", "VP_NKEYS": "1"}),
     "rearm": (["A", "B"], {"VP_CAP": "2", "VP_CTXPERSIST": "1", "VP_SETUP": "loop2", "VP_NKEYS": "1"}),
     "tb": (["A", "B"], {"VP_CAP": "2", "VP_CTXPERSIST": "1", "VP_SETUP": "loop2"}),
+    "tbbt": (["A", "B"], {"VP_CAP": "2", "VP_CTXPERSIST": "1", "VP_SETUP": "loop2", "VP_MAXPAY": "2"}),
     "tbb": (["A", "B"], {"VP_CAP": "3", "VP_CTXPERSIST": "1", "VP_SETUP": "loop2", "VP_MAXPAY": "2", "VP_NKEYS": "1"}),
     "tbtmr": (["A", "B"], {"VP_CAP": "2", "VP_CTXPERSIST": "1", "VP_SETUP": "loop2"}),
     "btmo": (["A", "B"], {"VP_CAP": "2", "VP_CTXPERSIST": "1", "VP_SETUP": "loop2", "VP_MAXPAY": "2"}),
@@ -824,7 +825,7 @@ def c19(prop, tier, seed):
 
 @check("C13")
 def c13(prop, tier, seed):
-    return core_check(prop, tier, seed, ["batch", "btmo", "kevl", "tbb"], ["batch", "btmo", "kevl", "tbb", "stashb"],
+    return core_check(prop, tier, seed, ["batch", "btmo", "kevl", "tbb", "tbbt"], ["batch", "btmo", "kevl", "tbb", "tbbt", "stashb"],
                       "Focus: low/normal/high priority subscriptions, batch sizes, which arrival triggers a handler invocation and with which events.", Dq=7, Dt=9)
 
 
@@ -862,7 +863,7 @@ def c20(prop, tier, seed):
 
 @check("C18")
 def c18(prop, tier, seed):
-    return core_check(prop, tier, seed, ["tb", "tbtmr", "tbb"], ["tb", "tbtmr", "tbb"],
+    return core_check(prop, tier, seed, ["tb", "tbtmr", "tbb", "tbbt"], ["tb", "tbtmr", "tbb", "tbbt"],
                       "Focus: token bucket: every kind of rate-limited call with 0, 1, 2 tokens (EAGAIN and no effect without a token), refill ticks capped at the burst, rate 0 and stop remove the limit; token count compared after every step.", Dq=6, Dt=8)
 
 
